@@ -4,6 +4,7 @@ import PdfVerif.Spec.Labels
 import PdfVerif.Spec.Outline
 import PdfVerif.Spec.NameTree
 import PdfVerif.Model.OutlineGraph
+import PdfVerif.Model.LabelsGen
 
 open PdfVerif
 
@@ -233,6 +234,20 @@ def handle (line : String) : String :=
   | ["roman", n] =>
     match n.toInt? with
     | some n => showExcept (Labels.formatIntRoman n)
+    | none => "bad-op"
+  | ["gen.roman", n] =>
+    match n.toInt? with
+    | some n => showExcept (LabelsGen.genFormatIntRoman n)
+    | none => "bad-op"
+  | ["gen.alpha", n] =>
+    match n.toInt? with
+    | some n => showExcept (LabelsGen.genFormatIntAlpha n)
+    | none => "bad-op"
+  | ["gen.label", st, n] =>
+    match n.toInt? with
+    | some n =>
+      let style : Option Bytes := if st == "-" then none else some st.toUTF8.toList
+      showExcept (LabelsGen.genFormatPageLabel n style)
     | none => "bad-op"
   | ["spec.roman", n] =>
     match n.toNat? with
